@@ -6,6 +6,8 @@ EXCL = ("timeoutread.o", "timeoutwrite.o", "qmail.o")
 
 
 def main(tier, replay=None):
+    if replay:
+        return vk_replay("C08", replay)
     res = Result("C08", tier, "model_checking")
     rd = rundir("C08")
     src = scratch_build(rd, "asan")
@@ -18,6 +20,10 @@ def main(tier, replay=None):
         d = os.path.join(rd, "cfg%d" % cfg); os.makedirs(d)
         jobs.append(("%s %s %d %d" % (exe, d, cfg, depth), "configuration %d" % cfg))
     res.run_parallel(jobs)
+    # program level: the real qmail-newmrh compiles control/morercpthosts, the real qmail-smtpd process consults the result
+    vk_build()
+    plain = scratch_build(rd, "plain")
+    vk_run(res, "c07", plain, rd, "0,0,0,0", 0, 600, "qmail-newmrh-then-qmail-smtpd", opts=["family=morercpt"])
     res.rule = ("for every configuration in {rcpthosts absent/present} x {morercpthosts.cdb absent/present (written with the cdbmss writer qmail-newmrh "
                 "uses)} x {badmailfrom absent/address/@domain} x {localiphost absent/present} x RELAYCLIENT {unset, empty, @gw}, plus 18 configurations whose morercpthosts.cdb is unreadable: breadth-first "
                 "search over command sequences of the real qmail-smtpd (one command per transition through the real commands() loop, DATA with "
@@ -25,8 +31,10 @@ def main(tier, replay=None):
                 "RSET/NOOP/VRFY/HELP/unknown/QUIT/DATA, 6 MAIL and 20 RCPT forms: exact, dot-wildcard, mixed case, cdb-only, foreign, no @, "
                 "source route, quoted, backslash, bracketless, IP literals, 899/903-byte and literal-growing addresses); states = distinct "
                 "server states, transitions = commands executed; every transition out of a state of depth <= 2 is repeated with the line ended by a bare LF and "
-                "pipelined with a following NOOP in the same read: replies, server state and submission must not differ" % depth)
+                "pipelined with a following NOOP in the same read: replies, server state and submission must not differ; program level (VK): the real "
+                "qmail-newmrh compiles a morercpthosts source (mixed case, wildcard, trailing blanks, comments, no final newline; and an empty one) and "
+                "the real qmail-smtpd process answers 13 recipients (exact, case-changed, wildcard, near misses) as the documented rule says" % depth)
     res.assumptions = ["reference transaction machine and rcpthosts/badmailfrom policy written from RFC 5321 and qmail-smtpd(8)",
                        "network and queue are harness stand-ins (smtpd_env.h); the queue side is C07's subject"]
-    res.require_nonzero("evaluations", "states", "transitions", "recipients_accepted", "recipients_refused", "messages_submitted")
+    res.require_nonzero("evaluations", "states", "transitions", "recipients_accepted", "recipients_refused", "messages_submitted", "morercpthosts_recipients_checked")
     return res.finish()
